@@ -204,7 +204,7 @@ func parseRule(part string) TagRule {
 	var params []string
 	if raw != "" {
 		switch {
-		case strings.HasPrefix(raw, "'") && strings.HasSuffix(raw, "'"):
+		case len(raw) >= 2 && strings.HasPrefix(raw, "'") && strings.HasSuffix(raw, "'"):
 			params = []string{unescaper.Replace(raw[1 : len(raw)-1])}
 		case strings.Contains(raw, " "):
 			params = strings.Fields(raw)
